@@ -26,6 +26,7 @@ type Blob struct {
 	ID   int
 	Snap Value      // deep snapshot of marshalled value
 	T    types.Type // static type of the snapshot
+	Tree *jnode     // JSON tree (built lazily from Snap, or the only content of a tree blob)
 }
 
 type Str struct {
